@@ -527,3 +527,11 @@ package core
 //@   requires k != nil
 //@   pure
 //@   ensures result == k.matched
+
+//@ func MacroKeys
+//@   props C18 C01
+//@   terminates
+//@   requires keys != nil
+//@   pure
+//@   ensures keys.mustWait ==> len(result) == 0
+//@   ensures !keys.mustWait ==> result == keys.matched
